@@ -251,7 +251,15 @@ func genRWCase(rng *rand.Rand) *rwCase {
 		c.Via = "handler"
 	}
 	n := rng.Intn(13)
+	if rng.Intn(50) == 0 {
+		n = 13 + rng.Intn(40) // occasionally a long history (many hooks, many writes)
+	}
+	sizes := []int{0, 1, 2, 63, 64, 65, 511, 512, 513, 4095, 4096, 4097, 65536}
 	for i := 0; i < n; i++ {
+		if rng.Intn(40) == 0 {
+			c.Ops = append(c.Ops, rwOp{Op: "write", N: sizes[rng.Intn(len(sizes))]})
+			continue
+		}
 		switch rng.Intn(8) {
 		case 0, 1:
 			c.Ops = append(c.Ops, rwOp{Op: "header", Code: 100 + rng.Intn(500)})
